@@ -510,12 +510,18 @@ impl Retrier {
                     Err(e) => {
                         match e {
                             AddAppointmentError::RequestError(e) => {
+                                // Not being able to understand the reply is handled like not getting one:
+                                // back off and try again, the appointment stays pending.
                                 if e.is_connection() {
                                     log::warn!(
                                         "{tower_id} cannot be reached. Tower will be retried later"
                                     );
-                                    return Err(Error::transient(RetryError::Unreachable));
+                                } else {
+                                    log::warn!(
+                                        "{tower_id} sent an unexpected reply ({e:?}). Tower will be retried later"
+                                    );
                                 }
+                                return Err(Error::transient(RetryError::Unreachable));
                             }
                             AddAppointmentError::ApiError(e) => match e.error_code {
                                 errors::INVALID_SIGNATURE_OR_SUBSCRIPTION_ERROR => {
